@@ -14,18 +14,23 @@ CHECK = Check(
           "declaration text."),
     assumptions=["determinism of the emitted text given the node tree is observed (two runs, three targets), not proved: there is no "
                  "text-level model of the generator",
-                 "the parser agreement theorem is over the exhaustive depth<=2 enumeration (bound stated in the theorem)"],
+                 "the unbounded parser agreement theorem (C13_parsers_agree) has two decidable premises: a non-empty import path and "
+                 "pwf_root (no pointer to pointer, at most one named reference per printed unnamed map type, struct literals only as "
+                 "named definitions, named types non-empty and not defined as pointers, no named []byte outside a pointer); every "
+                 "enumerated supported unit satisfies them (C13_premise_covers_enumeration) and each is shown necessary by a witness"],
     post=shipped.post,
 )
 
 MANIFEST = {
     "category": "proof",
     "text": ("Partial. Proved in Rocq: the go/ast and go/types parser models build the same type tree (hence the same XML and the same "
-             "emitter input) for every supported unit of the exhaustive depth<=2 enumeration, and differ outside the supported "
-             "fragment (refutation). Observed on every run: the parser models' XML equals the real XML of all three targets for every "
+             "emitter input) for EVERY well-formed root declaration - any nesting depth, any identifiers, any non-empty import path "
+             "(C13_parsers_agree, by induction on the declared type; premise pwf_root, which holds for every supported unit of the "
+             "exhaustive depth<=2 enumeration and is shown necessary clause by clause) - and, independently, for that enumeration by "
+             "computation; they differ outside the fragment (refutation). Observed on every run: the parser models' XML equals the real XML of all three targets for every "
              "enumerated unit; generated sources agree across repeated runs and across targets up to local numbering; the shipped "
              "testobj_ins/testdata are byte-identical to what the current generator produces."),
-    "note": ("Text determinism and shipped-output identity are translation validation, not theorems. No axioms; vm_compute over the "
-             "finite enumeration (bound in the statement)."),
-    "technique": "Rocq theorem over the enumerated grammar (vm_compute, bound stated) + translation validation of all targets",
+    "note": ("Text determinism and shipped-output identity are translation validation, not theorems. No axioms; the parser agreement "
+             "is an unbounded theorem with decidable premises, plus vm_compute over the finite enumeration (bound in that statement)."),
+    "technique": "Rocq theorem by induction on declared types (unbounded) + enumerated check (vm_compute) + translation validation of all targets",
 }
